@@ -14,6 +14,7 @@ import EaselModel.Miniapps.Compstruct
 import EaselModel.Miniapps.StoTools
 import EaselModel.Miniapps.Compalign
 import EaselModel.Miniapps.Small
+import EaselModel.Miniapps.Alimerge
 /-! # C13 — command-line front end of the reference functions: `runTool tool argv files` = predicted stdout -/
 namespace EaselModel.Miniapps
 
@@ -878,6 +879,27 @@ def runCompalign (argv : List String) (files : String → Option (List Char)) : 
   let [kf, tf] := p.pos | none
   Ali.compalign fa ta (p.has "-c") (p.has "-p") (c2b (← files kf)) (c2b (← files tf))
 
+/-- esl-alimerge [--outformat fmt] [--informat stockholm|pfam] (--dna|--rna|--amino) <file1> <file2>  |  --list <listfile>
+    (in-memory mode; alignments with names, rows and #=GC RF only) -/
+def runAlimerge (argv : List String) (files : String → Option (List Char)) : Option String := do
+  let p ← parseArgs ["--dna", "--rna", "--amino", "--list"] ["--outformat", "--informat"] argv {}
+  let _ ← fabcOf p
+  let outfmt := (p.val? "--outformat").getD "stockholm"
+  if !msaFormats.contains outfmt then none
+  match p.val? "--informat" with
+  | some f => if f != "stockholm" && f != "pfam" then none
+  | none => pure ()
+  let fns : List String ← if p.has "--list" then
+      (match p.pos with
+       | [lf] => (files lf).map fun c => (Ali.fileTokens (c2b c)).map b2s
+       | _ => none)
+    else (match p.pos with
+       | [a, b] => some [a, b]
+       | _ => none)
+  if fns.isEmpty then none
+  let srcs ← fns.mapM fun f => (files f).map c2b
+  (Ali.alimerge outfmt srcs).map b2s
+
 def runSfetch (argv : List String) (files : String → Option (List Char)) : Option String :=
   (runSfetchFull argv files).map (·.1)
 
@@ -898,6 +920,7 @@ def runToolCore (tool : String) (argv : List String) (files : String → Option 
   | "esl-alimanip" => runAlimanip argv files
   | "esl-compstruct" => runCompstruct argv files
   | "esl-compalign" => runCompalign argv files
+  | "esl-alimerge" => runAlimerge argv files
   | "easel" => runEasel argv files
   | _ => none
 
@@ -914,6 +937,10 @@ def runToolFull (tool : String) (argv : List String) (files : String → Option 
   else if tool == "esl-alimask" then runAlimaskFull argv files
   else if tool == "esl-afetch" then runAfetchFull argv files
   else if tool == "esl-alistat" then runAlistatFull argv files
+  else if tool == "esl-alimerge" then
+    match splitO argv [] with
+    | some (f, rest) => (runToolCore tool rest files).map fun out => ("# Saving alignment to file " ++ f ++ " ... done\n#\n", [(f, out.toList)])
+    | none => (runToolCore tool argv files).map fun out => (out, [])
   else if ["esl-shuffle", "esl-reformat", "esl-mask", "esl-weight", "esl-alimanip"].contains tool then
     match splitO argv [] with
     | some (f, rest) => (runToolCore tool rest files).map fun out => ("", [(f, out.toList)])
